@@ -138,6 +138,27 @@ def run_one(it):
             call(tag + "control_state_offline", lambda: eq.control_state.current.name, "HOST_OFFLINE")
 
         session("s1.")
+        if it.get("cut") is not None:
+            # the link drops in the middle of a message; both sides must notice, reconnect and communicate again
+            net.cut_after = it["cut"]
+            cdone = {"v": False}
+
+            def lost_call(cdone=cdone):
+                try:
+                    host.are_you_there()
+                except Exception:  # noqa: BLE001
+                    pass
+                cdone["v"] = True
+
+            simrt.Thread(target=lost_call, name="hostapp_lost_call").start()
+            s.run_until(lambda: not both_comm(), max_dt=60)
+            if not wait_comm(f"after-cut@{it['cut']}"):
+                rec["blocked"] = [b["thread"] + ":" + "/".join(b["stack"][-2:]) for b in s.blocked_report()][:8]
+                return
+            s.run_until(lambda: cdone["v"], max_dt=100)
+            del started[:]
+            eq.alarms[40].enabled = False
+            session("s1b.")
         for cyc, who in enumerate(it["cycles"], start=1):
             side = host if who == "H" else eq
             dn = {"v": False}
@@ -204,6 +225,7 @@ def run(ctx: Ctx):
                     for _ in range(reps):
                         tid += 1
                         items.append({"id": tid, "active": active, "order": order, "cap": cap, "cycles": cycles, "latency": 0,
+                                      "cut": rng.choice([None, 3, 7, 11, 14, 20]) if cycles != ["E", "H"] else None,
                                       "seed": rng.randrange(1 << 30), "policy": rng.choice(["fifo", "random", "pct"])})
     recs = [r_ for batch in pmap(run_batch, chunks(items, 32)) for r_ in batch]
     for r_ in recs:
@@ -224,7 +246,7 @@ def run(ctx: Ctx):
         if r_["id"] in (1, 8):
             ctx.sample({k: r_[k] for k in ("active", "order", "cap", "cycles", "policy", "comm")} | {"calls": r_["calls"][:5],
                                                                                                  "triggered": r_["triggered"][:2], "received": r_["received"][:2]})
-        base = {"check": "pair", "active": r_["active"], "order": r_["order"], "cap": r_["cap"], "cycles": r_["cycles"], "policy": r_["policy"],
+        base = {"check": "pair", "active": r_["active"], "order": r_["order"], "cap": r_["cap"], "cycles": r_["cycles"], "policy": r_["policy"], "cut": r_.get("cut"),
                 "sched_seed": r_["seed"]}
         if r_["outcome"] != "done" or r_.get("errors"):
             ctx.violation(dict(base, clause="session-did-not-finish", outcome=r_["outcome"], errors=r_.get("errors"), wedge=r_.get("wedge"),
